@@ -29,7 +29,7 @@ Directive summary (lines starting with //@):
       //@rw rev_loops                 R7: `for X in (A..B).rev()` => descending while loop over X_next
       //@rw float_opassign A,B        R4 as a rule: `LHS op= RHS;` => `LHS = LHS op (RHS);` when LHS starts with a listed name
       //@subst KIND "A" => "B" [count N]   declared literal rewrite (KIND in R4,R5,R6,R7,R11)
-      //@hole NAME from "TEXT" [occ N] [until "{"] => "REPLACEMENT"   R8: expression from after TEXT up to the
+      //@hole NAME from "TEXT" [occ N] [until "{"|"}"] => "REPLACEMENT"   R8: expression from after TEXT up to the
                                       statement's terminating ';' becomes REPLACEMENT; content recorded
       //@stmthole NAME loop K => "REPLACEMENT"   R8 statement form: whole K-th loop statement
       //@attr #[...]                  add an attribute line above the fn (Verus-only attributes)
@@ -651,8 +651,12 @@ class Extractor:
                 hs = pos + len(needle)
                 if until == '{':
                     he = next_open_brace(item, mask, hs, body_close)
+                elif until == '}':
+                    he = body_close          # tail expression of the function body
+                    while he > hs and item[he - 1].isspace():
+                        he -= 1
                 elif until is not None:
-                    raise SpecError('%s:%d: hole until supports only "{"' % (wf, wno))
+                    raise SpecError('%s:%d: hole until supports only "{" and "}"' % (wf, wno))
                 else:
                     he = stmt_end(item, mask, hs, body_close)
                 if he < 0:
